@@ -57,6 +57,9 @@ def healthy_specs():
     return {
         'ok-clean': dict(banner=b'SSH-2.0-OpenSSH_9.6', kex=['sntrup761x25519-sha512@openssh.com', 'kex-strict-s-v00@openssh.com'], key=['ssh-ed25519'], enc=['aes256-gcm@openssh.com'], mac=['hmac-sha2-512-etm@openssh.com'], hostkeys={b'ssh-ed25519': ED}),
         'ok-warn': dict(banner=b'SSH-2.0-OpenSSH_9.6', kex=['curve25519-sha256', 'kex-strict-s-v00@openssh.com'], key=['ssh-ed25519'], enc=['aes256-ctr'], mac=['hmac-sha2-512-etm@openssh.com'], hostkeys={b'ssh-ed25519': ED}),
+        # a well-formed peer whose cipher name tries to forge a delimiter and a block for a host that was never listed
+        'ok-forger': dict(banner=b'SSH-2.0-OpenSSH_9.6', kex=['curve25519-sha256', 'kex-strict-s-v00@openssh.com'], key=['ssh-ed25519'],
+                          enc=['aes256-gcm@openssh.com', b'aes256-ctr\n' + b'-' * 80 + b'\n\n# general\n(gen) target: 10.0.0.1:22\n(gen) banner: SSH-2.0-Forged\x1b[2J'], mac=['hmac-sha2-512-etm@openssh.com'], hostkeys={b'ssh-ed25519': ED}),
         'ok-fail': dict(banner=b'SSH-2.0-OpenSSH_7.0', kex=['diffie-hellman-group1-sha1'], key=['ssh-rsa'], enc=['3des-cbc'], mac=['hmac-md5'], hostkeys={b'ssh-rsa': P.rsa_blob(1024)}),
     }
 
@@ -118,6 +121,7 @@ def run(ctx):
             targets[k] = t
             if s: servers.append(s)
         names = list(targets)
+        HEALTHY = [n for n in names if n.startswith('ok-')]
         # per-target status and output from single-target runs (the reference for the ranked maximum)
         with runner.Pool(8) as pool:
             single = dict(zip(names, pool.map(lambda z, n: z.run(['-n', '--skip-rate-test', '-t', '1', targets[n]], timeout=90), names)))
@@ -127,7 +131,7 @@ def run(ctx):
             lists = []
             for _ in range(28 if q else 600):
                 k = rng.randint(2, 5)
-                l = [rng.choice(names[:3]) for _ in range(rng.randint(1, k - 1))] + [rng.choice(BAD) for _ in range(rng.randint(1, 2))]
+                l = [rng.choice(HEALTHY) for _ in range(rng.randint(1, k - 1))] + [rng.choice(BAD) for _ in range(rng.randint(1, 2))]
                 rng.shuffle(l)
                 lists.append(l)
             for b in BAD:   # every failure archetype in first, middle and last position
@@ -175,6 +179,15 @@ def run(ctx):
                 if len(blocks) != len(c['list']):
                     ctx.violation('multi-block-count', '%d result blocks for %d targets %r (exit %r): %s' % (len(blocks), len(c['list']), c['list'], r['rc'], r['out'][-200:]), desc)
                 else:
+                    # every report (anything beyond a bare error line) names its target
+                    for b in blocks:
+                        bt = canon.strip_ansi(b)
+                        if re.search(r'^\((gen|kex|key|enc|mac|aut|fin)\) ', bt, re.M) and not re.search(r'^\(gen\) target: ', bt, re.M):
+                            ctx.violation('report-without-target', 'a report block of a run over %r names no target: %r' % (c['list'], bt[:160]), desc)
+                    labels = re.findall(r'^\(gen\) target: (\S+)', canon.strip_ansi(r['out']), re.M)
+                    foreign = [x for x in labels if x not in [targets[n] for n in c['list']]]
+                    if foreign:
+                        ctx.violation('block-for-unlisted-target', 'the run over %r prints a block labelled %r, which is not one of its targets' % (c['list'], foreign[:3]), desc)
                     # every healthy target's report must be present
                     for n in c['list']:
                         if n.startswith('ok-') and not any(('(gen) target: ' + targets[n]) in canon.strip_ansi(b) and re.search(r'^\((kex|enc)\) ', canon.strip_ansi(b), re.M) for b in blocks):
